@@ -19,9 +19,10 @@ try:
         l = l.strip()
         if l.startswith("#"):
             l = l.lstrip("# ").strip()
-        m = re.match(r"(cp\s+(-r\s+)?SEED/\S+\s+\S+)", l)
-        if m and m.group(1) not in cps:
-            cps.append(m.group(1))
+        # placement commands are run as written: "cp SEED/.. dst", "cp a b dst/", "mkdir -p d && cp SEED/.. d/"
+        m = re.match(r"((?:mkdir\s+-p\s+\S+\s*&&\s*)?cp\s+(?:-r\s+)?SEED/[^#;|]*)", l)
+        if m and m.group(1).strip() not in cps:
+            cps.append(m.group(1).strip())
         m = re.search(r"""(go test (?:'[^']*'|"[^"]*"|[^#;&|])*)""", l)
         if m:
             t = re.sub(r"\s*\d?>+\s*\S*\s*$", "", m.group(1).strip())
@@ -49,13 +50,18 @@ try:
     res["fail_output"] = next((o for rc, o in withp if rc != 0), "")[-500:]
     # baseline with the patch (demo files removed again so that they do not count)
     for c in cps:
-        dst = c.split()[-1]
-        src = c.split()[-2]
-        target = os.path.join(scratch, dst, os.path.basename(src)) if os.path.isdir(os.path.join(scratch, dst)) else os.path.join(scratch, dst)
-        if os.path.isdir(target):
-            shutil.rmtree(target, ignore_errors=True)
-        elif os.path.exists(target):
-            os.remove(target)
+        md = re.match(r"mkdir\s+-p\s+(\S+)", c)
+        if md:
+            shutil.rmtree(os.path.join(scratch, md.group(1).split("/")[0]), ignore_errors=True)
+            continue
+        toks = c.split()
+        dst = toks[-1]
+        for src in [t for t in toks[1:-1] if t.startswith("SEED/")]:
+            target = os.path.join(scratch, dst, os.path.basename(src)) if os.path.isdir(os.path.join(scratch, dst)) else os.path.join(scratch, dst)
+            if os.path.isdir(target):
+                shutil.rmtree(target, ignore_errors=True)
+            elif os.path.exists(target):
+                os.remove(target)
     shutil.rmtree(os.path.join(scratch, "SEED"), ignore_errors=True)
     sp = set(json.load(open("/root/.vp/BASELINE.json"))["stable_pass"])
     ok = set()
